@@ -99,16 +99,17 @@ def ns_available():
         return False
 
 
-def run_ns(stage, uid):
+def run_ns(stage, uid, user=None):
     """run the real binary in a private mount namespace with the staged trees at the real paths; returns the set of ORIGIN markers"""
     out = os.path.join(stage, 'out')
-    user = uid != 0
+    if user is None:
+        user = uid != 0
     inner = (f'mount -t tmpfs tmpfs /etc && mount -t tmpfs tmpfs /run && mount -t tmpfs tmpfs /usr/share && '
              f'mkdir -p /etc/containers/systemd /run/containers/systemd /usr/share/containers/systemd && '
              f'mount --bind {stage}/adm /etc/containers/systemd && mount --bind {stage}/run /run/containers/systemd && '
              f'mount --bind {stage}/distro /usr/share/containers/systemd && '
              f'env -u QUADLET_UNIT_DIRS HOME={stage}/home XDG_CONFIG_HOME={stage}/home/.config XDG_RUNTIME_DIR={stage}/xdgrun '
-             + (f'setpriv --reuid={uid} --regid={uid} --clear-groups ' if user else '')
+             + (f'setpriv --reuid={uid} --regid={uid} --clear-groups ' if uid != 0 else '')
              + f'{stage}/quadlet-rs ' + ('--user ' if user else '') + f'--dry-run --no-kmsg-log {out}')
     p = subprocess.run(['unshare', '-m', 'sh', '-c', inner], capture_output=True, timeout=60)
     so = p.stdout.decode('utf-8', 'replace')
@@ -157,8 +158,9 @@ def oracle(ctx):
     def run(case):
         stage, tree, marks = case
         uid = rnd.choice([1001, 2002, 7])
-        return uid, run_ns(stage, 0), run_ns(stage, uid)
-    for (stage, tree, marks), (uid, r0, ru) in zip(cases, e2e.pmap(run, cases, workers=8)):
+        # the mode (--user) and the invoking uid are separate dimensions: uid 0 runs a user generator too (user@0.service)
+        return uid, run_ns(stage, 0, False), run_ns(stage, uid, True), run_ns(stage, 0, True)
+    for (stage, tree, marks), (uid, r0, ru, ru0) in zip(cases, e2e.pmap(run, cases, workers=8)):
         res.oracle_evals += 1
         fails = []
         want_root = {t for t, (lab, d) in marks.items() if lab in ('distro', 'run') or (lab == 'adm' and not (d == 'users' or d.startswith('users/')))}
@@ -169,6 +171,9 @@ def oracle(ctx):
             fails.append(f'the system generator read {sorted(r0[1])}, permitted and expected {sorted(want_root)}')
         if ru[1] != want_user:
             fails.append(f'the user generator (uid {uid}) read {sorted(ru[1])}, permitted and expected {sorted(want_user)}')
+        want_user0 = {t for t, (lab, d) in marks.items() if lab in ('xdg', 'xdgrun') or (lab == 'adm' and may_read_user(0, d))}
+        if ru0[0] not in (0, 1) or ru0[1] != want_user0:
+            fails.append(f'the user generator invoked by uid 0 (exit {ru0[0]}) read {sorted(ru0[1])}, permitted and expected {sorted(want_user0)}')
         for f in fails:
             res.oracle_failures.append(dict(op='namespace-run', input=dict(tree=tree, uid=uid), impl_output=dict(root=sorted(r0[1]), user=sorted(ru[1])), oracle_expectation=f))
         shutil.rmtree(stage, ignore_errors=True)
